@@ -203,6 +203,7 @@ type State struct {
 	tag     string
 	asserts int // number of vfAssert evaluated on this path (non-trivial)
 	log     *accessLog
+	par     *parState // vfPar: the two suspendable threads (nil outside)
 }
 
 type entropyMemo struct {
@@ -264,6 +265,9 @@ func (st *State) clone() *State {
 	n.knownIn = append([]string(nil), st.knownIn...)
 	if st.log != nil {
 		n.log = st.log.clone()
+	}
+	if st.par != nil {
+		n.par = st.par.clone()
 	}
 	return &n
 }
